@@ -12,6 +12,9 @@ func InitGenesis(ctx sdk.Context, k keeper.Keeper, genState types.GenesisState, 
 	k.SetParams(ctx, genState.Params)
 	states := genState.States
 	for _, av := range states {
+		if av.Burn && av.Account == nil {
+			av.Account = &types.Account{}
+		}
 		k.SetState(ctx, *av)
 	}
 }
